@@ -867,8 +867,17 @@ func (j *judge) polynomial(eg graph.EditableGraph, rep string) {
 			return
 		}
 	}
+	// a polynomial of degree <= n is pinned by the n+2 points above; anything
+	// beyond x^n has to be zero (the length of the slice itself is not documented)
 	if len(p) != n+1 {
 		c.Obs("polynomial:coefficient_slice_length_not_n+1", 1)
+	}
+	for i := n + 1; i < len(p); i++ {
+		if p[i] != 0 {
+			j.violation("ChromaticPolynomial", "wrong", "", map[string]interface{}{"coefficients": p},
+				fmt.Sprintf("coefficients %v: non-zero coefficient of x^%d", p, i), fmt.Sprintf("a polynomial of degree %d", n))
+			return
+		}
 	}
 	// the argument must be left as it was
 	if rep == "sparse" && j.cs.workload == "poly-sparse" {
